@@ -92,10 +92,7 @@ theorem check_mono_all (Γ : Env) (vs : List (String × Ty)) (hΓ : WfEnv Γ) (h
     intro name he
     rw [check_var] at he
     rw [check_var, check_var]
-    simp only [wrap_errs, wrap_ty] at he ⊢
-    show (match Ty.lookup name vs with
-      | none => (⟨.any, [err "undefined-variable" [name]], []⟩ : R)
-      | some t => ⟨t, if Γ.availCtx.contains (Γ.lower name) then [] else [err "context-not-allowed" [name]], []⟩).errs = [] ∧ _
+    simp only [wrap_errs, wrap_ty, setVars_vars, setVars_availCtx, setVars_lower] at he ⊢
     rcases hvs.lookup (k := name) with ⟨h1, h2⟩ | ⟨t, t', h1, h2, ht⟩
     · simp [h1] at he
     · simp only [h1] at he
@@ -134,14 +131,7 @@ theorem check_mono_all (Γ : Env) (vs : List (String × Ty)) (hΓ : WfEnv Γ) (h
     intro callee args ih he
     rw [check_call] at he
     rw [check_call, check_call]
-    simp only [wrap_errs, wrap_ty] at he ⊢
-    show (match lookupFuncs (Γ.lower callee) Γ.funcs with
-      | none => (⟨.any, [err "undefined-function" [callee]], []⟩ : R)
-      | some sigs =>
-        ⟨(resolveCall (Γ.setVars vs) callee sigs (args.head?.bind strLit?) (checkArgs (Γ.setVars vs) args).1).1,
-         (checkArgs (Γ.setVars vs) args).2.1 ++
-           (resolveCall (Γ.setVars vs) callee sigs (args.head?.bind strLit?) (checkArgs (Γ.setVars vs) args).1).2,
-         (checkArgs (Γ.setVars vs) args).2.2⟩).errs = [] ∧ _
+    simp only [wrap_errs, wrap_ty, setVars_funcs, setVars_lower] at he ⊢
     cases hl : lookupFuncs (Γ.lower callee) Γ.funcs with
     | none => simp [hl] at he
     | some sigs =>
@@ -268,10 +258,7 @@ theorem check_evs_all (Γ : Env) (vs : List (String × Ty)) :
   case case5 =>
     intro name
     rw [check_var, check_var]
-    simp only [wrap_evs]
-    show _ = enterOf Γ.lower (E.var name) ++ (match Ty.lookup name vs with
-      | none => (⟨.any, [err "undefined-variable" [name]], []⟩ : R)
-      | some t => ⟨t, if Γ.availCtx.contains (Γ.lower name) then [] else [err "context-not-allowed" [name]], []⟩).evs ++ _
+    simp only [wrap_evs, setVars_vars, setVars_availCtx, setVars_lower]
     cases Ty.lookup name Γ.vars <;> cases Ty.lookup name vs <;> rfl
   case case6 =>
     intro recv prop r isVars t es _ ih
@@ -291,14 +278,7 @@ theorem check_evs_all (Γ : Env) (vs : List (String × Ty)) :
   case case9 =>
     intro callee args ih
     rw [check_call, check_call]
-    simp only [wrap_evs]
-    show _ = enterOf Γ.lower (E.call callee args) ++ (match lookupFuncs (Γ.lower callee) Γ.funcs with
-      | none => (⟨.any, [err "undefined-function" [callee]], []⟩ : R)
-      | some sigs =>
-        ⟨(resolveCall (Γ.setVars vs) callee sigs (args.head?.bind strLit?) (checkArgs (Γ.setVars vs) args).1).1,
-         (checkArgs (Γ.setVars vs) args).2.1 ++
-           (resolveCall (Γ.setVars vs) callee sigs (args.head?.bind strLit?) (checkArgs (Γ.setVars vs) args).1).2,
-         (checkArgs (Γ.setVars vs) args).2.2⟩).evs ++ _
+    simp only [wrap_evs, setVars_funcs, setVars_lower]
     cases lookupFuncs (Γ.lower callee) Γ.funcs with
     | none => rfl
     | some sigs => simp only [ih]
@@ -342,5 +322,24 @@ theorem check_evs_all (Γ : Env) (vs : List (String × Ty)) :
 theorem check_evs {Γ Γ' : Env} (e : E) (h : LooserEnv Γ Γ') : (check Γ e).evs = (check Γ' e).evs := by
   rw [LooserEnv.eq_setVars h]
   exact (check_evs_all Γ Γ'.vars).1 e
+
+end AL.Sema
+
+namespace AL.Sema
+open AL AL.Ty
+
+/-- Evaluate `check` on concrete data by rewriting with the unfolding lemmas (`check` is compiled by
+well-founded recursion, so `decide`/`rfl` get stuck on it). Extra simp lemmas — typically the names of
+the concrete environment and expression — go in the brackets. -/
+macro "check_eval" "[" ls:Lean.Parser.Tactic.simpLemma,* "]" : tactic =>
+  `(tactic| simp [check_null, check_bool, check_num, check_str, check_var, check_objDeref, check_arrDeref,
+      check_index, check_call, check_not, check_cmp, check_logical, narrow_and_true, narrow_or_false,
+      narrow_and_false, narrow_or_true, narrow_not, narrow_other, checkArgs_nil, checkArgs_cons,
+      Ty.lookup, objDerefTy, arrDerefTy, indexTy, validCompare, opTruthy, isVarsVar, strLit?,
+      lookupFuncs, resolveCall, resolveCall.go, checkSig, firstBadArg, firstBadArg.fixed, firstBadArg.rest,
+      builtinCall, specialFuncErrs, checkConfigVar, Ty.assignable,
+      merge_arr_arr, merge_obj_obj, mergeProps_nil, mergeProps_cons, merge_any_left, merge_any_right,
+      merge_null_left, merge_number_left, merge_bool_left, merge_string_left, merge_obj_left, merge_arr_left, mergeScalar, mapped0, mergeMapped, isSomeAny,
+      Ty.setProp, Ty.isAny, Ty.isObj, Ty.isArr, $ls,*])
 
 end AL.Sema
